@@ -263,11 +263,15 @@ def build_machine(hcls: type, rec: Recorder):
 
     def make_rule(name, builder):
         def applicable(self):
-            return (not self.dead) and self.h is not None and builder(self.h) is not None
+            if self.dead or self.h is None:
+                return True  # dead machines idle (all rules are no-ops) so Hypothesis can finish
+            return builder(self.h) is not None
 
         @precondition(applicable)
         @rule(data=st.data())
         def r(self, data):
+            if self.dead or self.h is None:
+                return
             strat = builder(self.h)
             args = data.draw(strat, label=name)
             self.case["ops"].append([name, args])
